@@ -651,6 +651,9 @@ impl<E: ElemT> TableDrv<E> {
                 ev.n = 0;
             }
             "par_drain" | "into_par_iter" => {
+                if ev.n == 2 {
+                    ev.n = 1; // (the panicking-consumer variant is exercised on maps)
+                }
                 // n: 0 = consume everything, 1 = short-circuiting consumer (find_any class k); j = thread-pool size
                 use rayon::prelude::*;
                 let pool = rayon::ThreadPoolBuilder::new().num_threads(ev.j.max(1) as usize).build().unwrap();
